@@ -565,7 +565,7 @@ func (c *FnCtx) callByContract(st *State, fs *FuncSpec, sig *types.Signature, re
 				c.unsupported = append(c.unsupported, "bad assigns clause of "+key)
 				continue
 			}
-			except = append(except, pre.eval(ex))
+			except = append(except, pre.evalTarget(ex))
 		}
 	}
 	keys := map[string]string{}
